@@ -45,7 +45,10 @@ def run(chk, cases, timeout):
                 if own:
                     e = t["events"][step - 1]
                     for cl in own:
-                        chk.mismatch({"clause": cl, "family": c["fam"], "grammar": c["grammar"]},
+                        txt = c.get("text") or ""
+                        chk.mismatch({"clause": cl, "family": c["fam"], "grammar": c["grammar"],
+                                      # a semantic predicate in a negative position (a root-cause coordinate of a known finding)
+                                      "negated_count": "not (count(" in txt, "numeric": "int " in txt},
                                      {"case": c, "returned": t["solutions"], "bad_tree": e.get("tree"), "step": step})
                 else:
                     # outcome / protocol problems are C02's subject; counted here
